@@ -412,6 +412,21 @@ func (c *Conn) acceptLiteral(size int64, nonSync bool) error {
 	return c.writeContReq("Ready for literal data")
 }
 
+// readLine reads a line which isn't part of a command (SASL response, DONE).
+// Unlike bufio.Reader.ReadLine, the whole line is always consumed: tooLong is
+// set if it didn't fit in the buffer, in which case its contents are dropped.
+func (c *Conn) readLine() (line []byte, tooLong bool, err error) {
+	line, isPrefix, err := c.br.ReadLine()
+	for isPrefix && err == nil {
+		tooLong = true
+		_, isPrefix, err = c.br.ReadLine()
+	}
+	if tooLong {
+		line = nil
+	}
+	return line, tooLong, err
+}
+
 func (c *Conn) canAuth() bool {
 	if c.state != imap.ConnStateNotAuthenticated {
 		return false
